@@ -20,7 +20,7 @@ EXTENDS CurveGen, Mat, Json, Randomization
 
 CONSTANTS What,      \* "path" | "algebra"
           N, Kinds, Num, NC,      \* path scenarios (as in Query)
-          MatMode,   \* "one": identity only (model-level run) ; "fixed": the curated list ; "random": RandomSubset of integer matrices with entries -3..3
+          MatMode,   \* "one": identity only (model-level run) ; "fixed": the curated list ; "few": 9 of them ; "random": RandomSubset of integer matrices with entries -3..3
           MaxLen,    \* algebra: maximal history length
           Profile    \* algebra: "small" | "full" call alphabet
 
@@ -63,6 +63,7 @@ FixedMats == << RInt(MRot90(1)), RInt(MRot90(2)), RInt(MRot90(3)), RInt(MSc(2,1)
                 RNorm(<<1,0,0,0,1,0>>, 2), RNorm(<<3,0,0,0,1,0>>, 2), RNorm(<<1,1,0,-1,1,0>>, 2), RNorm(<<2,0,1,0,-2,1>>, 5) >>
 Ent == -3..3
 MatChoice == IF MatMode = "one" THEN {RId} ELSE IF MatMode = "fixed" THEN {FixedMats[i] : i \in 1..Len(FixedMats)}
+             ELSE IF MatMode = "few" THEN {FixedMats[i] : i \in {1, 5, 10, 13, 17, 26, 33, 37, 44}}
              ELSE {RInt(<<t[1], t[2], t[5], t[3], t[4], t[6]>>) : t \in {u \in RandomSubset(60, [1..6 -> Ent]) : u[1] * u[4] - u[2] * u[3] # 0}}
 
 SC == 2
@@ -78,7 +79,16 @@ FamSet == 1..9
 VARIABLES path, mat, reg, hist, regs, done
 vars == <<path, mat, reg, hist, regs, done>>
 
-PathChoice == IF NC = 1 THEN {<<DecodeCtr(GenVec(sd), N, Kinds, FamSet)>> : sd \in RandomSubset(Num, GenSeeds)}
+\* "propeller" paths (NC = 3, needs N >= 20): two arcs with the SAME radii but DIFFERENT rotation of the ellipse in one
+\* contour, about the same centre: families 6 (10,5 axis-parallel), 7 (5,10: the builder swaps the radii and turns by
+\* 90 degrees), 8 (10,5 rotated by atan(3/4)), 9 (5,10 rotated).  Every pair of distinct rotations, both sweeps, a few
+\* choices of end points; the second arc is reached by a straight line when needed.
+PropArc(f, i, k, sw) == LET pts == FamSeq[f] n == Len(pts) IN
+                        [a |-> PAdd(<<10, 10>>, pts[(i % n) + 1]), g |-> MkArc(f, <<10, 10>>, pts[(i % n) + 1], pts[((i + k) % n) + 1], sw, 0)]
+PropPaths == {LET x == PropArc(fp[1], i, k, sw) y == PropArc(fp[2], i + 1, k + 1, 1 - sw)
+              IN <<Ctr(x.a, <<x.g, Ln(y.a), y.g>>, TRUE)>> :
+                 fp \in {<<6, 8>>, <<8, 6>>, <<6, 7>>, <<7, 9>>, <<9, 8>>, <<8, 7>>}, i \in {0, 1}, k \in {1, 2}, sw \in {0, 1}}
+PathChoice == IF NC = 3 THEN PropPaths ELSE IF NC = 1 THEN {<<DecodeCtr(GenVec(sd), N, Kinds, FamSet)>> : sd \in RandomSubset(Num, GenSeeds)}
               ELSE {<<DecodeCtr(GenVec(sd), N, Kinds, FamSet), DecodeCtr(GenVec(sd + 104729), N, Kinds \cup {"L"}, FamSet)>> : sd \in RandomSubset(Num, GenSeeds)}
 
 \* way-points of an arc: the lattice points of its ellipse that lie strictly inside the arc, ordered along the arc
@@ -103,7 +113,7 @@ ImgSeg(a, g) == [k |-> g.k, p |-> RDot(mat, g.p), c1 |-> RDot(mat, g.c1), c2 |->
 ImgCtr(c) == [s |-> RDot(mat, c.s), segs |-> [i \in 1..Len(c.segs) |-> ImgSeg(SegStart(c, i), c.segs[i])], cl |-> c.cl]
 \* winding samples: every 7th query point that is decided and off the boundary:  <<numX, numY, w'>> over the denominator SC * mat.d
 Samples(pp) == LET sg == Sgn(RDetNum(mat))
-                   idx == {i \in 1..NQ : (i + Len(pp[1].segs)) % 7 = 0}
+                   idx == {i \in 1..NQ : (i + Len(pp[1].segs)) % (IF N > 10 THEN 23 ELSE 7) = 0}
                    rows == {<<i, PathWB(pp, QPt(i))>> : i \in idx}
                IN {LET q == RDot([mat EXCEPT !.n[3] = SC * mat.n[3], !.n[6] = SC * mat.n[6]], QPt(r[1])) IN <<q[1], q[2], sg * r[2][1]>> : r \in {x \in rows : x[2][2] = 0}}
 PathScenario == LET pp == ScalePath(SC, path) IN
